@@ -307,6 +307,16 @@ func (e *SpecEnv) ident(name string) Val {
 		if v, ok := e.fr.params[name]; ok {
 			return v
 		}
+		// heap-allocated struct local (escaping `x := T{}` / `&T{}`): its address
+		for _, b := range e.fr.fn.Blocks {
+			for _, in := range b.Instrs {
+				if a, ok := in.(*ssa.Alloc); ok && a.Comment == name {
+					if v, ok := e.fr.regs[a]; ok {
+						return v
+					}
+				}
+			}
+		}
 	}
 	// package-level object
 	if e.fn != nil {
@@ -642,6 +652,15 @@ func (e *SpecEnv) call(n *CallE) Val {
 			return Term{s, boolT}
 		}
 		return Term{e.eqNil(v, Term{"0", nil}), boolT}
+	case "hcount": // hcount(h, e): occurrences of element e in heap h (ghost multiset of container/heap)
+		hv := e.heapOf(n.Args[0])
+		return Term{x.hcountTerm(e.st, hv.et, hv.ref, e.term(e.eval(n.Args[1])).S), intT}
+	case "hsize":
+		hv := e.heapOf(n.Args[0])
+		return Term{x.hsizeTerm(e.st, hv.ref), intT}
+	case "hordered":
+		hv := e.heapOf(n.Args[0])
+		return Term{app("select", x.getArr(e.st, "HOK", "(Array Int Bool)"), hv.ref), boolT}
 	case "seensum": // sum of the values visited so far by the map range of this loop
 		if e.curLoop == nil || e.fr == nil {
 			bail("spec: seensum() is only meaningful in the invariant of a map range loop")
@@ -736,6 +755,24 @@ func (e *SpecEnv) undefined(f Expr, idx []Expr, isRes bool) Val {
 		}
 	}
 	return Term{x.declare(e.st, "undef", "Int"), nil}
+}
+
+// heapOf resolves a heap object expression (an interface value of known dynamic type, or a pointer).
+func (e *SpecEnv) heapOf(ex Expr) heapView {
+	v := e.eval(ex)
+	switch t := v.(type) {
+	case *Iface:
+		return e.x.heapViewOf(e.st, e.fr, t)
+	case Term:
+		return e.x.heapViewOf(e.st, e.fr, &Iface{Dyn: t.T, V: t})
+	case *Place:
+		if s, ok := e.x.placeTerm(t); ok {
+			pt := types.NewPointer(t.T)
+			return e.x.heapViewOf(e.st, e.fr, &Iface{Dyn: pt, V: Term{s, pt}})
+		}
+	}
+	bail("spec: %s is not a heap object", exprString(ex))
+	return heapView{}
 }
 
 func mustInt(ex Expr) int64 {
